@@ -12,7 +12,7 @@ ATOMS = ["a", "0", "0x", "0b1", "7", "\"", "\"s\"", "\\", "[{", "}]", "/*", "*/"
          "#ifdef", "#ifdef X", "#ifndef X", "#else", "#endif", "#define X", "#define", "#", "#x", "..", "...", ".",
          "!zz", "!add", "!cond", "é", "€", "\U0001d11e", " ", "\x0c", "$", "$a", "class", "def", "let", "in",
          "{", "}", "<", ">", ";", "(", ")", "[", "]", ",", "=", ":", "-", "+", "?", "include", "defm", "multiclass",
-         "foreach", "if", "then", "else", "X", "99999999999999999999", "18446744073709551616", "-9223372036854775809", "0x1" + "0" * 16]
+         "foreach", "if", "then", "else", "X", "99999999999999999999", "18446744073709551616", "-9223372036854775809", "0x1" + "0" * 16, "\x00", "\x01", "\x0b", "\x7f", "\u00a0", "\ufeff"]
 
 
 def atom_sequences(maxlen, atoms=None):
@@ -138,7 +138,7 @@ LADDERS = [
 ]
 
 
-def ladders(depths=(1, 2, 4, 8, 16, 32, 64, 128, 256)):
+def ladders(depths=(1, 2, 4, 8, 16, 32, 64, 128, 256, 384, 640, 1000)):
     out = []
     for d in depths:
         for o, core, c, tmpl in LADDERS:
